@@ -1,6 +1,6 @@
 (* C04 — property theorems (statements only; proofs live in Proofs*.v). *)
 From Coq Require Import ZArith QArith Qround Bool List.
-Require Import QV.C04.Model QV.C04.Spec QV.C04.Proofs QV.C04.Proofs2 QV.C04.Proofs4 QV.C04.Proofs3 QV.C04.Proofs5.
+Require Import QV.C04.Model QV.C04.Spec QV.C04.Proofs QV.C04.Proofs2 QV.C04.Proofs4 QV.C04.Proofs3 QV.C04.Proofs5 QV.C04.Proofs6.
 Import ListNotations.
 Open Scope Q_scope.
 
@@ -216,3 +216,23 @@ Theorem C04_example_substitution :
   /\ eval e (subst m x) = Ok (VInt 11) /\ eval ([(0%N, VInt 5); (1%N, VInt 3)] ++ e) x = Ok (VInt 11).
 Proof. exact example_substitution. Qed.
 Print Assumptions C04_example_substitution.
+
+(* round 5.  The specification's own scope analysis (Spec.scope_prog / scope_sym: a static kind inference saying that no
+   binary float arithmetic can take part; used by check_spec instead of asking the model) is sound for the operational
+   model: where the specification judges, the model of create_program (any reading, any ghost switch) and the model of
+   the duration expression never answer Inexact *)
+Theorem C04_scope_prog_sound : forall c p e, scope_prog p e = true -> cp c (resolve idf p) e <> Inexact.
+Proof. exact scope_prog_sound. Qed.
+Print Assumptions C04_scope_prog_sound.
+Theorem C04_scope_sym_sound : forall p e, scope_sym p e = true -> sym p (decimalize e) <> Inexact.
+Proof. exact scope_sym_sound. Qed.
+Print Assumptions C04_scope_sym_sound.
+(* non-vacuity: a float parameter used bare (0.1 repeated 3 times: 3/10) is in scope; 0.1 * 3 computed in binary
+   floating point is not, and the model classifies it Inexact *)
+Theorem C04_example_scope :
+  scope_prog ex_in_scope ex_float_env = true /\ scope_sym ex_in_scope ex_float_env = true
+  /\ den ex_in_scope (qenv_of ex_float_env) = Some (3 # 10)
+  /\ scope_prog ex_out_of_scope ex_float_env = false /\ cp real (resolve idf ex_out_of_scope) ex_float_env = Inexact
+  /\ scope_sym ex_out_of_scope ex_float_env = true.
+Proof. exact example_scope. Qed.
+Print Assumptions C04_example_scope.
